@@ -10,8 +10,8 @@ seeds = len(glob.glob(f"{V}/seeded/*/meta.json"))
 p = f"{V}/DESIGN.md"
 s = open(p).read()
 new = (f"{nfix} `fix:` commits repair {fixed} recorded defects of flow.record, {opened} findings stay open (known_findings.json), {seeds} seeded changes produced by\n"
-       "independent sub-agents in four rounds are kept under seeded/ with what detects them.")
-s, n = re.subn(r"\d+ genuine defects of flow\.record were\nrepaired \(`fix:` commits\), \d+ are recorded as open findings \(known_findings\.json\), \d+ seeded changes produced by\nindependent sub-agents are kept under seeded/ with what detects them\.|\d+ `fix:` commits repair \d+ recorded defects of flow\.record, \d+ findings stay open \(known_findings\.json\), \d+ seeded changes produced by\nindependent sub-agents in four rounds are kept under seeded/ with what detects them\.", new, s)
+       "independent sub-agents in six rounds are kept under seeded/ with what detects them.")
+s, n = re.subn(r"\d+ genuine defects of flow\.record were\nrepaired \(`fix:` commits\), \d+ are recorded as open findings \(known_findings\.json\), \d+ seeded changes produced by\nindependent sub-agents are kept under seeded/ with what detects them\.|\d+ `fix:` commits repair \d+ recorded defects of flow\.record, \d+ findings stay open \(known_findings\.json\), \d+ seeded changes produced by\nindependent sub-agents in six rounds are kept under seeded/ with what detects them\.", new, s)
 assert n == 1, n
 open(p, "w").write(s)
 print(nfix, fixed, opened, seeds)
